@@ -279,6 +279,10 @@ impl BroCatli {
                 return BroCatliResult::BrotliFileNotCraftedForAppend;
             }
             index -= 1; // discard the final two bits
+            if index >= 8 && out_bytes.len() <= *out_offset {
+                // no room for the completed byte: leave the state untouched so the call can be retried
+                return BroCatliResult::NeedsMoreOutput;
+            }
             last_bytes &= (1 << index) - 1; // mask them out
             self.last_bytes[0] = last_bytes as u8; // reset the last_bytes pair
             self.last_bytes[1] = (last_bytes >> 8) as u8;
